@@ -31,6 +31,7 @@ def generate(rng, idx, tier, variant):
         S.make_integer_model(rng, spec)  # values beyond 2**53: a snapshot that detours through float64 is not the stored value
     n, lags, leads = spec['span']['n'], spec['lags'], spec['leads']
     spec['trace_variables'] = None if rng.random() < 0.6 else rng.sample(names, rng.randint(1, len(names)))
+    spec['names_as'] = rng.choice(['list'] * 4 + ['tuple'])  # (a sequence of names is a sequence of names: list or tuple)
     handles = list(names)
     if rng.random() < 0.25:
         # the tracer combined with the alias mixin (either order in the MRO); traced names may then be aliases
@@ -171,15 +172,19 @@ def build_triplet(fsic, spec, ctx=None):
         from fsic.extensions import AliasMixin
 
         order = (AliasMixin, TracerMixin) if spec.get('alias_first') else (TracerMixin, AliasMixin)
-        traced = type('Traced', order + (base,), {'TRACE_VARIABLES': spec.get('trace_variables'), 'ALIASES': dict(map(tuple, spec['aliases']))})
+        traced = type('Traced', order + (base,), {'TRACE_VARIABLES': _seq(spec, spec.get('trace_variables')), 'ALIASES': dict(map(tuple, spec['aliases']))})
     else:
-        traced = type('Traced', (TracerMixin, base), {'TRACE_VARIABLES': spec.get('trace_variables')})
+        traced = type('Traced', (TracerMixin, base), {'TRACE_VARIABLES': _seq(spec, spec.get('trace_variables'))})
     out = []
     for cls in (traced, traced, base):
         m = probes.new_scripted_instance(cls, spans.make_span(spec['span']), spec['init'], **S._dtype_kw(spec))
         probes.get_ctl(m).columns = True
         out.append(m)
     return out, span, endo, check
+
+
+def _seq(spec, x):
+    return tuple(x) if (isinstance(x, list) and spec.get('names_as') == 'tuple') else x
 
 
 def _out(fn):
@@ -307,7 +312,7 @@ def execute(schedule, ctx):
             return m.solve(**S.solver_kwargs(opts), **extra)
 
         tracing = bool(tr)
-        extra = {'trace': tr} if (tr is not None) else {}
+        extra = {'trace': _seq(spec, tr)} if (tr is not None) else {}
         if not tracing and op.get('off_as') not in (None, 'omitted', 'None'):
             extra = {'trace': {'False': False, '0': 0, 'np.False_': np.bool_(False), 'empty-list': [], 'empty-str': ''}[op['off_as']]}
             ctx.probe('tracing-off-spelt:' + op['off_as'])
